@@ -1610,9 +1610,45 @@ class Interp(object):
     def builtin_zip(self, args, kwargs, e, env):
         if kwargs or any(a is TOP or isinstance(a, Obj) for a in args):
             return TOP
-        # generator arguments are advanced element by element (zip stops at the shortest argument: an endless generator is fine)
+        # generator arguments are advanced only as far as zip advances them (it stops at the shortest argument: an endless generator is fine)
+        finite = [(i, self.iterate(a)) for i, a in enumerate(args) if not isinstance(a, LazyGen)]
+        if finite and any(isinstance(a, LazyGen) for a in args):
+            n = min(len(v) for _i, v in finite)
+            first_short = min(i for i, v in finite if len(v) == n)
+            cols = {i: v for i, v in finite}
+            for i, a in enumerate(args):
+                if isinstance(a, LazyGen):
+                    # zip asks argument i for element k before it finds a later argument exhausted: one more element when it comes first
+                    cols[i] = self._take(a, n + 1 if i < first_short else n)
+            m = min(len(cols[i]) for i in range(len(args)))
+            r = [tuple(cols[i][k] for i in range(len(args))) for k in range(m)]
+            return OneShot(r) if self.version >= (3,) else r
         r = list(zip(*[(self.lazily(a) if isinstance(a, LazyGen) else self.iterate(a)) for a in args]))
         return OneShot(r) if self.version >= (3,) else r
+
+    def _take(self, gen, k):
+        """The first k elements of a generator (fewer if it ends), advancing it exactly that far; a fresh generator is run in place."""
+        out = []
+        if k <= 0:
+            return out
+        if gen.fresh():
+            class _Enough(BaseException):
+                pass
+
+            def on_item(v):
+                out.append(v)
+                if len(out) >= k:
+                    raise _Enough()
+            try:
+                gen.run_inline(on_item)
+            except _Enough:
+                pass
+            return out
+        for v in gen:
+            out.append(v)
+            if len(out) >= k:
+                break
+        return out
 
     def builtin_next(self, args, kwargs, e, env):
         it = args[0]
